@@ -75,7 +75,8 @@ LASTS = {"float": [2, 3, 4, 5, 6, 8, 12, 16, 20], "double": [2, 3, 4, 5, 6, 8, 1
 def real_cells(tier):
     if tier == "quick":
         return [("sse2", "c++14", None), ("avx2", "c++17", -1), ("avx512", "c++14", 1), ("avx2", "c++14", None), ("sse2", "c++17", -1), ("avx512", "c++17", None)]
-    return [(isa, std, co) for isa in core.ALL_ISAS for std in ("c++14", "c++17") for co in (None, 1, -1)]
+    return [(isa, std, co) for isa in ("scalar", "sse2", "avx2", "avx512") for std in ("c++14", "c++17") for co in (None, 1, -1)] + \
+           [(isa, "c++14", None) for isa in ("sse42", "avx")]
 
 def real_groups(tier, seed):
     rng = random.Random(seed * 4099 + 7)
@@ -93,7 +94,7 @@ def real_groups(tier, seed):
             lasts = LASTS[t]
             npat = 6 if tier == "quick" else len(RP_GENERAL)
             for (I, J) in rng.sample(RP_GENERAL, npat):
-                for L in (rng.sample(lasts, 3) if tier == "quick" else lasts):
+                for L in (rng.sample(lasts, 3) if tier == "quick" else rng.sample(lasts, 5)):
                     ext = {nm: rng.choice([2, 3, 4, 5]) for nm in set(I) | set(J)}
                     ext[J[-1]] = L                      # the extent that decides the SIMD type / stride of the loop nest
                     if rng.random() < 0.5: ext[I[-1]] = ext.get(I[-1]) if I[-1] == J[-1] else rng.choice(lasts)
